@@ -837,7 +837,51 @@ def rule_h(ctx: Context, R: Reporter):
     R.floor("C14.h", "kernel subscripts of per-mode arrays", n_seen, 4)
     R.analysed["C14.h:label-typed subscripts"] = n_label
 
+def rule_i(ctx: Context, R: Reporter):
+    """C14.i  one clusterer object is shared by the training and the labelling step: outside the constructors,
+    whoever re-binds the clusterer attribute of one step re-binds it on every step, to the same value, in the
+    same function (a helper that swaps a stand-in into both steps but puts the live model back on one of them
+    leaves labels and modes to come from two different fits)."""
+    cl, wiring, users = shared_clusterer(ctx)
+    attr_by_cls = {c.qualname: a for (c, a) in users}
+    attrs = set(attr_by_cls.values())
+    n = 0
+    for fi in ctx.prog.functions.values():
+        if fi.name == "__init__" and fi.cls is not None and fi.cls.qualname in attr_by_cls:
+            continue
+        if fi is wiring:
+            continue
+        sets = {}
+        for x in walk_no_nested(fi.node):
+            if isinstance(x, ast.Assign):
+                for t in x.targets:
+                    if isinstance(t, ast.Attribute) and t.attr in attrs and not (isinstance(t.value, ast.Name) and t.value.id == "self" and fi.cls is not None and fi.cls.qualname not in attr_by_cls and False):
+                        owner = norm_text(t.value)
+                        sets.setdefault(owner, []).append((norm_text(x.value), x))
+        if not sets:
+            continue
+        # owners that are step objects: typed by the resolver, or named like the wiring's attributes
+        step_owners = {}
+        for owner, lst in sets.items():
+            at = flow_of(fi.node).node_containing(lst[0][1])
+            types = [t for t in ctx.res.expr_types(fi, lst[0][1].targets[0].value, at) if isinstance(t, ClassInfo)]
+            if any(t.qualname in attr_by_cls for t in types) or (not types and any(u.name.lower() in owner.lower() for (u, _) in users)):
+                step_owners[owner] = lst
+        if not step_owners:
+            continue
+        n += 1
+        vals = {v for lst in step_owners.values() for (v, _) in lst}
+        ok = len(step_owners) >= len(users) and len(vals) == 1
+        first = next(iter(step_owners.values()))[0][1]
+        R.check("C14.i", "the clusterer is re-bound on every step that holds it, to one object", ok, fi, first,
+                msg=f"{fi.short}: re-binds the clusterer of {sorted(step_owners)} (values {sorted(vals)}) but the steps that share it are {[u.name for (u, _) in users]}: afterwards "
+                    f"training and labelling use different models", key=f"shared-clusterer-rebound:{fi.short}")
+    R.check("C14.i", "the clusterer attribute of the steps is re-bound consistently or not at all", True, wiring, wiring.node, key="shared-clusterer-scan")
+    R.analysed["C14.i:functions re-binding the clusterer"] = n
+
+
 def run(ctx: Context, R: Reporter):
+    R.guard(rule_i, ctx, R)
     R.guard(rule_h, ctx, R)
     R.guard(rule_a, ctx, R)
     R.guard(rule_b, ctx, R)
